@@ -374,6 +374,11 @@ class Interp3(Interp2):
         ci = self.custom_iter(it)
         if ci is not None and (is_sym(it) or isinstance(it, Ref)):
             it = self.call_value(ci, [it], {})
+        if isinstance(it, GenVal) and it.kind == 'rawiter' and spec is None:
+            # no invariant: run the real tokeniser body (possible when the script's structure is concrete)
+            from bitcoin.core.script import CScript
+            self._force_collect = True
+            it = self.inline_function(CScript.raw_iter, [it.payload], {})
         if isinstance(it, GenVal) and it.kind == 'rawiter':
             from .scriptiter import rawiter_loop
             return rawiter_loop(self, n, spec, it.payload)
